@@ -302,7 +302,7 @@ func checkSaddr(c *enumx.Ctx, saddr string, want map[string]string, ipWant net.I
 		}
 		ok := true
 		for k, w := range want {
-			if d[k] != w {
+			if got, present := d[k]; got != w || !present {
 				c.Report("C12 saddr-"+want["family"]+":"+k, fmt.Sprintf("SOCKADDR %q: %s = %q, encoded %q", raw, k, d[k], w), nil)
 				ok = false
 			}
@@ -430,6 +430,13 @@ func c12Sockaddr(c *enumx.Ctx) {
 			checkSaddr(c, saddrUn("/run/"+p, total), map[string]string{"family": "unix", "path": "/run/" + p}, nil)
 		}
 	})
+	// unnamed and abstract unix sockets: an empty path is a value, too (the key is there)
+	for _, sa := range []string{"0100", "010000", "01000000000000", saddrUn("", 110), "010000666F6F", "010000666F6F00"} {
+		if !c.Mine() {
+			continue
+		}
+		checkSaddr(c, sa, map[string]string{"family": "unix", "path": ""}, nil)
+	}
 	for _, p := range []string{"/var/run/nscd/socket", "/dev/log", "public/pickup", strings.Repeat("x", 107)} {
 		if !c.Mine() {
 			continue
